@@ -33,6 +33,8 @@ def pt_alphabet():
                 out.append(("hand", kind, e, tr, n, dt))
     out.append(("hand", "rank4-readout-caps", 2, False, 3, DT))
     out.append(("hand", "rank4-readout-caps", 3, True, 2, None))
+    out.append(("hand", "rank4-nocaps", 3, False, 3, DT))         # exported before any cap tensor was set
+    out.append(("hand", "rank4-lastcap", 2, True, 4, DT))         # only the cap of the last step is set
     out.append(("hand", "rank4-in-only", 2, True, 2, DT))       # exactly one of the two optional transforms is set
     out.append(("hand", "rank4-out-only", 3, True, 3, DT))
     out.append(("pttempo", "diag", None, None, 4, DT))
@@ -50,6 +52,17 @@ def build(spec):
         if kind == "rank4":
             ks = [[R.random_free_unitary(d * e, 30 + k)] for k in range(n)]
             return A.build_pt(d, e, sigma, ks, dt=dt, basis_v=v, name="hand made", description="rank-4 ancilla PT")
+        if kind in ("rank4-nocaps", "rank4-lastcap"):
+            from oqupy.process_tensor import SimpleProcessTensor
+            ks = [[R.random_free_unitary(d * e, 30 + k)] for k in range(n)]
+            full = A.build_pt(d, e, sigma, ks, dt=dt, basis_v=v)
+            part = SimpleProcessTensor(hilbert_space_dimension=d, dt=dt, transform_in=full.transform_in,
+                                       transform_out=full.transform_out, name="partial caps", description=kind)
+            for k in range(n):
+                part.set_mpo_tensor(k, full.get_mpo_tensor(k, transformed=False))
+            if kind == "rank4-lastcap":
+                part.set_cap_tensor(n, full.get_cap_tensor(n))
+            return part
         if kind in ("rank4-in-only", "rank4-out-only"):
             from oqupy.process_tensor import SimpleProcessTensor
             ks = [[R.random_free_unitary(d * e, 30 + k)] for k in range(n)]
